@@ -46,6 +46,7 @@ def run(ctx):
         f = ctx.anchor("R1", pat)
         if not f:
             continue
+        f = prog.inlined(f, keep=("get_rules", "get_rule_from_lang", "for_path"))  # e.g. the CombinedScan construction extracted into a private helper
         calls = fam_calls(prog, f)
         scans = [c for c in calls if c.best.endswith("CombinedScan::<'r, L>::scan")]
         news = [c for c in calls if c.best.endswith("CombinedScan::<'r, L>::new")]
